@@ -249,6 +249,112 @@ theorem C14_draw_count_batches (N B : Nat) (hB : 0 < B) :
     listSum (sliceSizes N B) = N ∧ (sliceSizes N B).length = ceilDiv N B :=
   ⟨sliceSizes_sum N B hB, sliceSizes_length N B hB⟩
 
+/-! ## 4b. operations added after the audit: `Observable.sample`, `fit` with an evaluator callback -/
+
+/-- **C14.3 (the write set, complete).** An operation of the model may assign to a parameter ONLY if it is a
+construction, `reinitialize_parameters`, `fit` or `load`; every other operation — in particular `Observable.sample`
+(`obsSample`: it draws exactly what `NeuralState.sample` with the same arguments draws and is read-only) — is covered
+by `C14_read_only_step` / `C14_read_only`.  (Which PUBLIC callables of the library fall into which operation class is
+established by the correspondence harness, by introspection of the API; a public callable without a class breaks the check.) -/
+theorem C14_read_only_ops_ext (i k num arg : Nat) (init : Option Nat) :
+    (Op.obsSample i k num init arg).writesParams = false ∧ (Op.obsSample i k num init arg).isPure = true ∧
+    (∀ (st : St P), stepCalls st (.obsSample i k num init arg) = stepCalls st (.sample i k num init)) ∧
+    (∀ op : Op, op.writesParams = true →
+      (∃ kd n h a, op = .construct kd n h a) ∨ (∃ j, op = .reinit j) ∨ (∃ j c, op = .fit j c) ∨ (∃ j p, op = .load j p)) := by
+  refine ⟨rfl, rfl, fun st => ?_, fun op h => ?_⟩
+  · simp only [stepCalls, Op.slot?]
+    cases st.objs i <;> rfl
+  · cases op <;> simp [Op.writesParams] at h
+    · exact Or.inl ⟨_, _, _, _, rfl⟩
+    · exact Or.inr (Or.inl ⟨_, rfl⟩)
+    · exact Or.inr (Or.inr (Or.inl ⟨_, _, rfl⟩))
+    · exact Or.inr (Or.inr (Or.inr ⟨_, _, rfl⟩))
+
+/-- **C14.4 (training with a sampling callback).** `fit(…, callbacks=[ObservableEvaluator(period, …)])` draws from
+torch's generator INSIDE the epoch loop. Whether the call raises is not affected by the evaluator, and when it
+completes there is one block `E` of training calls (shuffle + Gibbs chains of the batches) such that the plain
+`fit` makes `E` once per epoch while the `fit` with the evaluator makes, epoch by epoch, `E` followed — exactly in
+the epochs `e` with `e % period == 0`, and after that epoch's last batch — by the calls of one `statistics(num_samples,
+num_chains, burn_in, steps)`.  So the later epochs' shuffles see a stream shifted by the evaluator's draws: a seeded
+run with an evaluator is reproducible (`C14_seeded_determinism` is about every `Op`, hence about this one), but it
+is NOT the same run as without the evaluator. -/
+theorem C14_fit_evaluator_calls (A : Arch) (c : FitCfg) :
+    (fitCalls A c).2 = (fitCalls A c.noEval).2 ∧
+    ((fitCalls A c).2 = none → ∃ E : List Call,
+      (fitCalls A c.noEval).1 = (List.replicate c.numEpochs E).flatten ∧
+      (fitCalls A c).1 = ((List.range c.numEpochs).map (fun j => E ++ evalCalls A c (c.startEpoch + j))).flatten) := by
+  have hrep : ∀ (n : Nat) (E : List Call), ((List.range n).map (fun _ => E)).flatten
+      = (List.replicate n E).flatten := by
+    intro n E
+    induction n with
+    | zero => rfl
+    | succ n ih =>
+      rw [List.range_succ, List.map_append, List.flatten_append, ih, List.replicate_succ']
+      simp
+  unfold fitCalls
+  simp only [FitCfg.noEval, FitCfg.numEpochs, FitCfg.negB', effBases]
+  by_cases h1 : A.kind ≠ .pos ∧ c.bases = none
+  · simp [h1]
+  simp only [h1, if_false]
+  by_cases h2 : c.posB = 0
+  · simp [h2]
+  simp only [h2, if_false]
+  by_cases h3 : c.epochs + 1 - c.startEpoch = 0
+  · simp only [h3, if_true]
+    exact ⟨by trivial, fun _ => ⟨[], by simp⟩⟩
+  simp only [h3, if_false]
+  split
+  · rename_i e he
+    simp [he]
+  · rename_i he
+    refine ⟨by trivial, fun _ => ⟨_, ?_, rfl⟩⟩
+    simp only [evalCalls, List.append_nil]
+    exact (hrep _ _).symm ▸ rfl
+
+/-- **C14.4 closed form with an evaluator.** A completed `fit` with an evaluator draws what the plain `fit` draws plus
+one `statistics` worth of elements per epoch divisible by the period. -/
+theorem C14_fit_evaluator_draws (A : Arch) (c : FitCfg) (cb : EvalCb) (h : c.evalCb = some cb)
+    (hok : (fitCalls A c).2 = none) :
+    callsTotal (fitCalls A c).1 = fitDraws A c.noEval
+      + evalEpochs c cb.period * statDraws A cb.numSamples cb.numChains cb.burnIn cb.steps none := by
+  rw [callsTotal_fit A c hok]
+  unfold fitDraws evalDraws
+  simp only [FitCfg.noEval, FitCfg.numEpochs, FitCfg.negB', effBases, h, Nat.add_zero]
+  rfl
+
+/-- number of multiples of `p` among `a, a+1, …, a+n-1` -/
+theorem multiples_count (p : Nat) (hp : 0 < p) (a n : Nat) :
+    ((List.range n).filter (fun j => (a + j) % p = 0)).length + ceilDiv a p = ceilDiv (a + n) p := by
+  induction n with
+  | zero => simp
+  | succ n ih =>
+    rw [List.range_succ, List.filter_append, List.length_append, Nat.add_right_comm, ih]
+    unfold ceilDiv
+    have e : a + (n + 1) + p - 1 = (a + n + p - 1) + 1 := by omega
+    rw [e, Nat.succ_div]
+    by_cases hd : (a + n) % p = 0
+    · have : p ∣ a + n + p - 1 + 1 := by
+        have : a + n + p - 1 + 1 = a + n + p := by omega
+        rw [this]
+        exact (Nat.dvd_add_right (Nat.dvd_of_mod_eq_zero hd)).mpr (Nat.dvd_refl p)
+      simp [hd, this]
+    · have : ¬ p ∣ a + n + p - 1 + 1 := by
+        have e2 : a + n + p - 1 + 1 = a + n + p := by omega
+        rw [e2]
+        intro hdiv
+        exact hd (Nat.mod_eq_zero_of_dvd ((Nat.dvd_add_left (Nat.dvd_refl p)).mp hdiv))
+      simp [hd, this]
+
+/-- **C14.4 (how often the evaluator samples).** Among the epochs `starting_epoch … epochs` exactly
+`⌈(epochs+1)/p⌉ − ⌈starting_epoch/p⌉` are divisible by the period `p` (for `starting_epoch ≤ epochs + 1`). -/
+theorem C14_eval_epochs_closed (c : FitCfg) (p : Nat) (hp : 0 < p) (hse : c.startEpoch ≤ c.epochs + 1) :
+    evalEpochs c p = ceilDiv (c.epochs + 1) p - ceilDiv c.startEpoch p := by
+  have := multiples_count p hp c.startEpoch c.numEpochs
+  have e : c.startEpoch + c.numEpochs = c.epochs + 1 := by unfold FitCfg.numEpochs; omega
+  rw [e] at this
+  unfold evalEpochs
+  omega
+
 /-! ## 5. dependence on the seed — partial -/
 
 /-- **C14.5 (partial).** The whole run after `set_random_seed(s)` — every result, every
@@ -373,8 +479,13 @@ example : seedWord 18446744073709551616 = none ∧ seedWord (-922337203685477580
 k=2, 3 epochs, n=3, h=3: 3·(10 + 2·10·6) = 390; with neg_batch_size=3: 3·(10 + 9 + 2·9·6) = 381. -/
 example : initDraws (resolveArch .dens 2 (some 3) (some 1)) = 16 := by decide
 example : sampleDraws (resolveArch .dens 2 (some 3) (some 1)) 2 5 none = 70 := by decide
-example : fitDraws (resolveArch .pos 3 none none) ⟨10, 3, 1, 4, none, 2, none, 0⟩ = 390 := by decide
-example : fitDraws (resolveArch .pos 3 none none) ⟨10, 3, 1, 4, some 3, 2, none, 0⟩ = 381 := by decide
+example : fitDraws (resolveArch .pos 3 none none) ⟨10, 3, 1, 4, none, 2, none, 0, none⟩ = 390 := by decide
+example : fitDraws (resolveArch .pos 3 none none) ⟨10, 3, 1, 4, some 3, 2, none, 0, none⟩ = 381 := by decide
+
+/-- with an evaluator of period 2 (5 samples, 2 chains, burn-in 3, 1 step) on epochs 1..3: one extra `statistics` (epoch 2):
+2·3 + 3·2·6 + 2·(1·2·6) = 66 more elements -/
+example : fitDraws (resolveArch .pos 3 none none) ⟨10, 3, 1, 4, none, 2, none, 0, some ⟨1, 4, 2, 3, 1⟩⟩ = 390 + 66 := by decide
+example : evalEpochs (⟨10, 7, 2, 4, none, 2, none, 0, none⟩ : FitCfg) 3 = 2 := by decide
 
 end examples
 
